@@ -41,7 +41,9 @@ def gen_cases(tier, seed):
         if fam == "INF":
             cfgd["iteration_limit"] = 500
             cfgd["control"] = str(rng.choice(["DistanceRatio", "DistanceRatio", "Exact", "ResiduumRatio"]))
-            case["gopts"] = {"variant": int(rng.choice([1, 2, 2, 0]))}
+            case["gopts"] = {"variant": int(rng.choice([1, 2, 2, 0, 3, 4, 5, 5]))}
+            if rng.random() < 0.3:
+                cfgd.update(C.rare_params(rng))
         elif fam == "UNB":
             cfgd["iteration_limit"] = 200
             cfgd["obj_lower_limit"] = float(rng.choice([-1e10, -1e3]))
@@ -127,7 +129,7 @@ def run_case(case):
         g[up] = np.maximum(g[up], 0.0)
         gi = float(np.max(np.abs(g))) if g.size else 0.0
         res["maxes"] = {"infeasible_internal_violation_over_tol": cv / tol,
-                        "infeasible_internal_stationarity_over_tol": gi / ltol}
+                        "infeasible_internal_stationarity_over_tol": gi / ltol if ltol > 0 else float(gi > 0)}
         if not cv > tol * (1 - 1e-9) - 1e-13 * float(np.max(D.cabs(zi))):
             bad("infeasible-not-violated", "LocallyInfeasible at a point whose (internal) constraint violation %.3e does "
                 "not exceed the tolerance %.1e" % (cv, tol))
